@@ -162,7 +162,7 @@ def replay_access(cex, d):
     fx.update(cex)
     n = int(fx['n'])
     if n > 5000:
-        return {'reproduced': False, 'detail': 'too large'}
+        return {'reproduced': False, 'skip': True, 'detail': 'too large'}
     atom = tuple(fx.get('atom', ()))
     numtype, bo = fx['numtype'], fx['bo']
     probs = []
